@@ -569,10 +569,30 @@ pub fn property(tier: Tier) -> Property {
             wcases.push(WireCase { call: call.clone(), c2s, s2c });
         }
     }
+    // handler metadata that happens to carry a grpc-encoding entry (e.g. forwarded from an upstream
+    // response) while response compression is negotiated: what is announced must still be what
+    // the messages are compressed with
+    for shape in super::l1::Shape::ALL {
+        for forged in ["identity", "deflate"] {
+            for s2c in [Enc::Gzip, Enc::Zstd] {
+                let script = super::l1::Script {
+                    initial_md: vec![("grpc-encoding".to_string(), super::l1::MdVal::Ascii(forged.to_string()))],
+                    msgs: vec![vec![4, 5], vec![6]],
+                    end: None,
+                    handler_err: false,
+                    bidi: super::l1::BidiMode::ReadAll,
+                    disable_compression: false,
+                    exact_hint: false,
+                };
+                let call = CallCase { shape, req_msgs: vec![vec![1]], req_md: vec![], script, free_cuts: false, enc: None, fixed_chunks: false };
+                wcases.push(WireCase { call, c2s: None, s2c: Some(s2c) });
+            }
+        }
+    }
     let b = Section::new(
         "l1-wire",
         Config { max_bound: 2, ..Default::default() },
-        "cases: every C02 call case (shape x request sequence x handler script) x compression configuration; generated client -> capture adapter -> generated server; environment: message sources answer Pending (<= 2 deviations); oracle on the captured HTTP messages: POST, HTTP/2, path /fx.Echo/<Method>, content-type application/grpc, te: trailers, no request trailers; response 200 + application/grpc, exactly one grpc-status (in headers iff the body is empty, else in one trailers block that is last); both bodies parse with the independent decoder into the expected serialisations, compressed with the announced grpc-encoding exactly when flag = 1. Non-trivial = compression configured or an error status scripted.",
+        "cases: every C02 call case (shape x request sequence x handler script) x compression configuration, plus handler metadata carrying its own grpc-encoding entry while response compression is negotiated; generated client -> capture adapter -> generated server; environment: message sources answer Pending (<= 2 deviations); oracle on the captured HTTP messages: POST, HTTP/2, path /fx.Echo/<Method>, content-type application/grpc, te: trailers, no request trailers; response 200 + application/grpc, exactly one grpc-status (in headers iff the body is empty, else in one trailers block that is last); both bodies parse with the independent decoder into the expected serialisations, compressed with the announced grpc-encoding exactly when flag = 1. Non-trivial = compression configured or an error status scripted.",
         wcases,
         |c: &WireCase| format!("c2s={} s2c={} {}", enc_name(c.c2s), enc_name(c.s2c), describe(&c.call)),
         wire_body,
